@@ -1044,6 +1044,12 @@ class Simulation:
                             f"Gradient not implemented for {n}."
                         )
 
+                # The electric fields are required; they might have been
+                # removed by `clean('keepresults')`.
+                if any(self._dict_efield[src][freq] is None
+                       for src, freq in self._srcfreq):
+                    self.compute()
+
                 # Compute back-propagating electric fields.
                 self._bcompute()
 
@@ -1327,6 +1333,12 @@ class Simulation:
 
         # Ensure misfit has been computed (and therefore the electric fields).
         _ = self.misfit
+
+        # The electric fields are required; they might have been removed by
+        # `clean('keepresults')`.
+        if any(self._dict_efield[src][freq] is None
+               for src, freq in self._srcfreq):
+            self.compute()
 
         # Apply derivative-chain of property-map (copy to not overwrite).
         if vector.ndim == 3:
